@@ -23,12 +23,12 @@ for pid, p in props.items():
         assert r.returncode == 0, r.stderr
     os.makedirs(f"{wt}/{sub}", exist_ok=True)
     prev = []
-    n = 1
-    while os.path.exists(f"/verif/seeded/{pid}-{n}/meta.json"):
+    for n in range(1, 200):  # numbers of rejected submissions are gaps
+        if not os.path.exists(f"/verif/seeded/{pid}-{n}/meta.json"):
+            continue
         m = json.load(open(f"/verif/seeded/{pid}-{n}/meta.json"))
         t = re.sub(r"^(Change \d - )?patch\d\.diff / demo\d\.py\s*[-:]\s*", "", m["needs_to_manifest"])
         prev.append(f"  {n}. " + t[:380].replace("\n", " "))
-        n += 1
     prompt = f"""You are helping to evaluate a verification framework for the small pure-Python WSGI/ASGI toolkit `baize` (abersheeran/baize). Your job is to write two *seeded defects*: realistic changes to baize's source that break one stated semantic property while the package still imports and its existing test suite still passes. You work ONLY in your own scratch git worktree `{wt}` (a detached worktree of the repository at its current HEAD). Never touch /repo or /verif and do not read anything under /verif.
 
 THE PROPERTY ({pid}): {p['title']}
